@@ -133,6 +133,16 @@ func init() {
 		runs = append(runs, runsOf(lifeRuns(tier), o, MonFlags{Dis: true}, "life-main", "life-caplow-flipped", "life-restart", "fx-main")...)
 		runs = append(runs, RunSpec{Name: "bind-ops+slash-restart", Sc: restartable(scBind(defaultParams(), bindOpsFull(), []Template{tSlash}, []string{"bad"}, d, b, m-1)), Oracles: o, Mon: MonFlags{Dis: true}})
 		runs = append(runs, RunSpec{Name: "bind-ops-main-unit+foreign-token", Sc: scBindFX(defaultParams(), d, b, m), Oracles: o, Mon: MonFlags{Dis: true}})
+		{
+			// governance stretches the two periods to 2^62 ns each (their sum does not fit a duration): no refund in our lifetime
+			g := defaultParams()
+			g.Arbitration, g.Complaint, g.Name = 1<<62, 1<<62, "gov-periods-2^62ns"
+			sc := scBind(defaultParams(), nil, []Template{tSlash}, []string{"bad"}, d, b, m)
+			sc.Alpha = lifeAlpha(AlphaOpts{RespKinds: []string{"bad"}, ParamChanges: []ParamSet{g}, BindOps: []Action{actBind("a", "P1", "O1", 10, "p1", 1),
+				actDisable("a", "P1", "O1"), actRefund("a", "P1", "O1")}})
+			sc.Name = "S-BIND(gov-periods-2^62ns)"
+			runs = append(runs, RunSpec{Name: "gov-periods-beyond-a-duration", Sc: timeJumps(sc), Oracles: o, Mon: MonFlags{Dis: true}})
+		}
 		// block times that advance by three seconds at once: the refundable instant (disabling time + 2 s) can be jumped over
 		runs = append(runs, RunSpec{Name: "bind-ops-time-jumps", Sc: timeJumps(scBind(defaultParams(), bindOpsSmall(), []Template{tSlash}, []string{"bad"}, d, b, m-1)), Oracles: o, Mon: MonFlags{Dis: true}})
 		// arbitration 1.5 s + complaint 0.5 s: the refundable instant is exactly two blocks after the disabling time
@@ -179,6 +189,8 @@ func init() {
 		}
 		runs = append(runs, runsOf(lifeRuns(tier), o, MonFlags{})...)
 		runs = append(runs, RunSpec{Name: "bind-ops-time-jumps", Sc: timeJumps(scBind(defaultParams(), bindOpsSmall(), []Template{tSlash2}, []string{"bad"}, d, b, m-1)), Oracles: o})
+		// slash fraction exactly 1: one failure takes the whole deposit
+		runs = append(runs, RunSpec{Name: "bind-ops+slash-all", Sc: scBind(paramSet("0.5", "1"), bindOpsSmall(), []Template{tSlash2}, []string{"bad"}, d-1, b, 2), Oracles: o})
 		if tier == "thorough" {
 			for _, sl := range []string{"0", "0.001", "1"} {
 				runs = append(runs, RunSpec{Name: "bind-ops+slash" + sl, Sc: scBind(paramSet("0.5", sl), bindOpsFull(), []Template{tSlash}, []string{"bad"}, d, b, m), Oracles: o})
@@ -375,6 +387,16 @@ func init() {
 		runs = append(runs, runsOf(lifeRuns(tier), o, MonFlags{}, "life-main", "life-caplow-flipped", "price-subunit+zero", "mod-main", "msvc", "life-restart", "fx-main", "fx-rate-unavailable")...)
 		runs = append(runs, RunSpec{Name: "bind-ops+slash-restart", Sc: restartable(scBind(defaultParams(), bindOpsFull(), []Template{tSlash}, []string{"bad"}, d, b, m-1)), Oracles: o})
 		runs = append(runs, RunSpec{Name: "bind-ops-main-unit+foreign-token", Sc: scBindFX(defaultParams(), d, b, m), Oracles: o})
+		{
+			// the shipped multiple (200) with prices whose product with it passes 2^63 and 2^64
+			p := defaultParams()
+			p.Multiple, p.Name = 200, "multiple-200"
+			sc := scBind(p, []Action{actBindBig("a", "P1", "O1", "6000", "92233720368547759", 1), actBindBig("a", "P1", "O1", "6000", "46116860184273880", 1), actBind("a", "P1", "O1", 6000, "p20", 1),
+				actUpdateBigPrice("a", "P1", "O1", "92233720368547759"), actDisable("a", "P1", "O1"), actEnable("a", "P1", "O1", 0)}, []Template{tSlash}, []string{"bad"}, d-1, b, m)
+			sc.Funds = append(sc.Funds, Funding{O1, 100000})
+			sc.Name = "S-BIND(multiple 200, price x multiple around 2^63 and 2^64)"
+			runs = append(runs, RunSpec{Name: "bind-ops-price-times-multiple-beyond-int64", Sc: sc, Oracles: o})
+		}
 		if tier == "thorough" {
 			p := defaultParams()
 			p.MinDeposit, p.Multiple, p.Name = 3, 5, "min3-mult5"
